@@ -82,6 +82,10 @@ def typedLine (st : YState) (e : SExp) : YState × String :=
   match e with
   | .list [.atom "tstart", .atom k] => ({ st with kind := k }, "ok")
   | .list (.atom "tsrv" :: _) => (st, "ok")
+  | .list [.atom "tafter", ta, ua] =>
+    -- after shutdown every constructor fails, on the typed side exactly as on the untyped one
+    if ta != ua then ({ st with dead := true }, s!"reject C20/C12 after shutdown the typed constructors answered {repr ta}, the untyped ones {repr ua}")
+    else (st, "ok")
   | .list [.atom "tlazy", tevs, uevs, tc, uc] =>
     match decEvs tevs, decEvs uevs, decBool tc, decBool uc with
     | some tevs, some uevs, some tc, some uc =>
